@@ -103,7 +103,7 @@ func c33(c *an.Check) {
 			}})
 		c.Gate(an.GateSpec{Rule: "MUSTCALL", Construct: "hold-open " + w.name + " clears the slot it released", Fn: fn,
 			Sink: func(s *an.State, ins ssa.Instruction) bool {
-				if !isMtxCall(ins, mtxF, "Unlock") {
+				if !isUnlockPoint(s, ins, mtxF) {
 					return false
 				}
 				return s.Executed(ins, func(i ssa.Instruction) bool {
